@@ -534,6 +534,17 @@ func init() {
 				fail(*f)
 			}
 		}
+		// LAST: "valid input never produces an error" also after a caller has written into slices the library handed out
+		if f := gettersHandOutCopies(); f != nil {
+			fail(*f)
+		} else {
+			for _, id := range []string{tblActive[0], tblActive[len(tblActive)-1], "MIT", tblDeprecated[0]} {
+				if f := c04String(strings.TrimSuffix(id, "+"), 0); f != nil {
+					fail(*f)
+				}
+			}
+		}
+		loadTables()
 	}
 	replays["C04"] = func(k *kase) *failure {
 		if k.Expr == "" && k.ExprHex != "" && k.ExprHex != "." {
@@ -923,6 +934,35 @@ func init() {
 					flushCorr()
 				}
 			}
+		}
+		// every sequence up to a greater length over small sub-alphabets (the reference part, the suffix part, the bracket
+		// part of the grammar): a production that recurses where it should not accepts `dref : dref : lref`
+		for _, sub := range []struct {
+			syms []sym
+			n    int
+		}{
+			{[]sym{alpha[8], alpha[9], alpha[7]}, 6},
+			{[]sym{alpha[0], alpha[15], alpha[14], alpha[5]}, scale(5, 6)},
+			{[]sym{alpha[10], alpha[11], alpha[0], alpha[12]}, scale(6, 7)},
+			{[]sym{alpha[7], alpha[14], alpha[5], alpha[15], alpha[13]}, 5},
+		} {
+			var rec func(q []sym)
+			rec = func(q []sym) {
+				if len(q) >= 5 { // shorter ones are in the full enumeration above
+					count("sub_alphabet_sequences")
+					if f := c05Check(q, len(q)%2 == 0); f != nil {
+						fail(*f)
+					}
+				}
+				if len(q) == sub.n {
+					return
+				}
+				for _, a := range sub.syms {
+					rec(append(append([]sym{}, q...), a))
+				}
+			}
+			rec(nil)
+			flushCorr()
 		}
 		// texts with bytes outside the lexical alphabet (non-ASCII letters that case-fold to ASCII, other scripts, odd white
 		// space): none of them is in the language, wherever the byte stands
